@@ -667,12 +667,12 @@ pub fn def() -> PropertyDef {
         ],
         exhaustive: false,
         subs: vec![
-            batch_sub::<F>((1200, 30_000)),
-            batch_sub::<R>((160, 3000)),
-            shape_sub::<F>((600, 12_000)),
-            shape_sub::<R>((100, 1500)),
-            cancel_sub::<F>((600, 12_000)),
-            cancel_sub::<R>((80, 1500)),
+            batch_sub::<F>((4000, 40_000)),
+            batch_sub::<R>((400, 4000)),
+            shape_sub::<F>((2500, 25_000)),
+            shape_sub::<R>((300, 3000)),
+            cancel_sub::<F>((3000, 30_000)),
+            cancel_sub::<R>((300, 3000)),
         ],
     }
 }
